@@ -24,7 +24,67 @@ def guard(fn, what):
         return {"kind": "error", "what": what, "err": type(ex).__name__, "msg": str(ex)[:200]}
 
 
-def obs_map(rng, big=False):
+class OffsetFile(object):
+    """An in-memory file whose first byte lives at position `base`: tables can be placed beyond 2^16, 2^31 and
+    2^32 (where the width and the signedness of stored positions matter) without writing gigabytes."""
+
+    def __init__(self, base, buf=None):
+        self.base = base
+        self.buf = bytearray() if buf is None else buf
+        self.pos = base
+
+    def tell(self):
+        return self.pos
+
+    def seek(self, pos, whence=0):
+        if whence == 0:
+            self.pos = pos
+        elif whence == 1:
+            self.pos += pos
+        else:
+            self.pos = self.base + len(self.buf) + pos
+
+    def _index(self):
+        i = self.pos - self.base
+        if i < 0:
+            raise ValueError("access at position %d, before the start of the data (%d)" % (self.pos, self.base))
+        return i
+
+    def write(self, data):
+        i = self._index()
+        if i > len(self.buf):
+            self.buf.extend(b"\x00" * (i - len(self.buf)))
+        self.buf[i:i + len(data)] = data
+        self.pos += len(data)
+        return len(data)
+
+    def read(self, n=-1):
+        i = self._index()
+        if n is None or n < 0:
+            n = len(self.buf) - i
+        data = bytes(self.buf[i:i + n])
+        self.pos += len(data)
+        return data
+
+    def readline(self):
+        i = self._index()
+        j = self.buf.find(b"\n", i)
+        j = len(self.buf) if j < 0 else j + 1
+        data = bytes(self.buf[i:j])
+        self.pos += len(data)
+        return data
+
+    def flush(self):
+        pass
+
+    def close(self):
+        pass
+
+
+BASES = [70000, 2 ** 31 - 150, 2 ** 31 + 5, 2 ** 32 - 150, 2 ** 32 + 11]
+
+
+def obs_map(rng, big=False, base=None):
     from whoosh.filedb.filestore import RamStorage
     from whoosh.filedb.filetables import HashWriter, HashReader
     hashtype = rng.choice([0, 1, 2])
@@ -37,14 +97,23 @@ def obs_map(rng, big=False):
         v = bytes(bytearray(rng.randrange(256) for _ in range(min(vlen, 64)))) * (1 if vlen <= 64 else vlen // 64)
         writes.append((k, v))
     st = RamStorage()
-    f = st.create_file("h")
-    pad = rng.choice([0, 0, 7])
-    f.write(b"x" * pad)
+    if base is None:
+        f = st.create_file("h")
+        pad = rng.choice([0, 0, 7])
+        f.write(b"x" * pad)
+    else:
+        from whoosh.filedb.structfile import StructFile
+        of = OffsetFile(base)
+        f = StructFile(of)
+        pad = base
     hw = HashWriter(f, hashtype=hashtype)
     for k, v in writes:
         hw.add(k, v)
     hw.close()
-    hr = HashReader(st.open_file("h"), startoffset=pad)
+    if base is None:
+        hr = HashReader(st.open_file("h"), startoffset=pad)
+    else:
+        hr = HashReader(StructFile(OffsetFile(base, of.buf)), length=len(of.buf), startoffset=base)
     probes = sorted(set(keys + [rand_key(rng) for _ in range(6)] + [b"", b"\x00"]))
     o = {"kind": "map", "what": "HashWriter/HashReader hashtype=%d offset=%d big=%s" % (hashtype, pad, big),
          "writes": [[hx(k), hx(v)] for k, v in writes],
@@ -56,23 +125,31 @@ def obs_map(rng, big=False):
     return o
 
 
-def obs_ordered(rng, fielded=False):
+def obs_ordered(rng, fielded=False, base=None):
     from whoosh.filedb.filestore import RamStorage
     from whoosh.filedb.filetables import OrderedHashWriter, OrderedHashReader
     keys = sorted(set(rand_key(rng, 5) for _ in range(rng.randrange(0, 30))))
     writes = [(k, bytes(bytearray(rng.randrange(256) for _ in range(rng.choice([0, 2, 9]))))) for k in keys]
     st = RamStorage()
-    f = st.create_file("h")
+    if base is None:
+        f = st.create_file("h")
+    else:
+        from whoosh.filedb.structfile import StructFile
+        of = OffsetFile(base)
+        f = StructFile(of)
     hw = OrderedHashWriter(f)
     for k, v in writes:
         hw.add(k, v)
     hw.close()
-    hr = OrderedHashReader(st.open_file("h"))
+    if base is None:
+        hr = OrderedHashReader(st.open_file("h"))
+    else:
+        hr = OrderedHashReader(StructFile(OffsetFile(base, of.buf)), length=len(of.buf), startoffset=base)
     probes = sorted(set(keys[:8] + [rand_key(rng, 5) for _ in range(8)] + [b"", b"\xff\xff\xff\xff\xff\xff\xff"]))
 
     def bl(b):
         return [int(x) for x in bytearray(b)]
-    o = {"kind": "ordered", "what": "OrderedHashWriter/Reader n=%d" % len(keys),
+    o = {"kind": "ordered", "what": "OrderedHashWriter/Reader n=%d base=%s" % (len(keys), base),
          "writes": [[bl(k), hx(v)] for k, v in writes],
          "keys": [bl(k) for k in hr.keys()],
          "closest": [[bl(p), (lambda k: [] if k is None else [bl(k)])(hr.closest_key(p))] for p in probes],
@@ -138,11 +215,18 @@ def obs_roundtrips(rng):
     def growable():
         ga = GrowableArray(inittype=rng.choice(["B", "H", "i"]))
         vals = nums(2 ** 63 - 1) if rng.random() < 0.5 else sorted(nums(2 ** 40))
-        for v in vals:
-            if rng.random() < 0.8:
-                ga.append(v)
+        i = 0
+        while i < len(vals):
+            c = rng.random()
+            if c < 0.6:
+                ga.append(vals[i])
+                i += 1
             else:
-                ga.extend([v])
+                # several numbers in one call (a list, or an iterator that can be consumed only once), which may
+                # cross the range of the current array type part way through
+                chunk = vals[i:i + rng.randrange(1, 5)]
+                ga.extend(chunk if c < 0.8 else iter(chunk))
+                i += len(chunk)
         st = RamStorage()
         f = st.create_file("g")
         ga.to_file(f)
@@ -278,6 +362,11 @@ def check_tables(run, quick):
     for i in range(n):
         obs.append(guard(lambda: obs_map(rng, big=(not quick and i % 10 == 0)), "map"))
         obs.append(guard(lambda: obs_ordered(rng), "ordered"))
+        if i % 3 == 0:
+            # the same tables far into a (virtual) file: positions beyond 2^16, around 2^31 and 2^32
+            b = BASES[(i // 3) % len(BASES)]
+            obs.append(guard(lambda: obs_ordered(rng, base=b), "ordered"))
+            obs.append(guard(lambda: obs_map(rng, base=b), "map"))
         obs.append(obs_sort(rng))
         obs.append(obs_compound(rng, big=(i % 10 == 0)))
     for i in range(6 if quick else 60):
